@@ -185,10 +185,12 @@ def check(col: Collector, tier: str):
                 f"jinja2.Environment is created with options {sorted(bad)}: anything besides the loader "
                 "(autoescape, finalize, trim_blocks, lstrip_blocks, custom delimiters...) can alter or drop injected text", wf.loc)
     # template rendering call passes the info dict itself
-    cp = repo.method("executor", "_copy_template_file", hint="common.executor")
-    chain_ok = "get_template(template_file).stream(info).dump" in src(cp.node).replace("\n", "").replace(" ", "")
-    col.add("C14.R3", "executor._copy_template_file", "renders-with-info", chain_ok,
-            "the file must be rendered from get_template(template_file).stream(info)", cp.loc)
+    from sa.props._tr import check_copy_template as _cct
+    sub_r = Collector("C14")
+    _cct(sub_r, "C14.R3", repo, details=("renders-with-info", "truncate", None))
+    for o in sub_r.obs:
+        if o.detail == "renders-with-info" and o.construct.endswith("executor._copy_template_file"):
+            col.add("C14.R3", "executor._copy_template_file", "renders-with-info", o.ok, o.msg, o.loc)
     # _ib_fetch concatenates in order: however it is spelled, it returns getattr(block, <its parameter>) of every block, chained in list order
     ib = repo.method("executor", "_ib_fetch", hint="common.executor")
     from sa.props._tr import flat_concat, selected_by_type
